@@ -14,7 +14,7 @@ from hypothesis import strategies as st
 
 from ..core import Check, Outcome, crash, fail
 
-NAMES = ["A", "B", "C", "D", "E", "Z"]
+NAMES = ["A", "B", "C", "D", "E", "F", "Z"]
 
 
 class C13(Check):
